@@ -67,6 +67,8 @@ enum Pre {
     Fresh,
     /// an appointment row (7-byte blob => 1 slot) exists
     Stored,
+    /// an appointment row with exactly the blob of the request exists (older delay, signature and start block)
+    StoredSame,
     /// appointment row and tracker exist
     Triggered,
 }
@@ -102,7 +104,10 @@ fn add_appointment_step(
     let uuid0 = the_uuid(0);
     {
         let dbm = w.dbm.lock().unwrap();
-        if pre != Pre::Fresh {
+        if pre == Pre::StoredSame {
+            let (s0, s1) = if blob_ok { (1u8, DISPUTE as u8) } else { (7u8, 7u8) };
+            dbm.verif_push_appointment(uuid0, ExtendedAppointment::new(appointment_with_blob(DISPUTE as u8, len, s0, s1, 5), user(0), sig_of(b'o'), 3));
+        } else if pre != Pre::Fresh {
             dbm.verif_push_appointment(uuid0, ExtendedAppointment::new(appointment_with_blob(DISPUTE as u8, 7, 9, 9, 5), user(0), sig_of(b'o'), 3));
         }
         if pre == Pre::Triggered {
@@ -141,7 +146,7 @@ fn add_appointment_step(
         "C06.isolation: another user's subscription is never altered");
     assert!(dbm.verif_app_row(the_uuid(1)) == other_before, "C06.isolation: another user's appointment for the same locator is never altered");
     let authenticated = matches!(recovered, Some(k) if k < 2);
-    let slots_needed = slots_spec(len) as i64 - if pre == Pre::Fresh { 0 } else { 1 };
+    let slots_needed = slots_spec(len) as i64 - if pre == Pre::Fresh { 0 } else if pre == Pre::StoredSame { slots_spec(len) as i64 } else { 1 };
     if !authenticated || recovered != Some(0) {
         if !authenticated {
             assert!(matches!(r, Err(AddAppointmentFailure::AuthenticationFailure)), "C06.auth: an unrecoverable or unregistered key is refused");
@@ -259,6 +264,7 @@ w_harness!(c07_add_two_slots, add_appointment_step(Some(0), false, Pre::Fresh, t
 w_harness!(c07_add_update_grow, add_appointment_step(Some(0), false, Pre::Stored, true, false, true, Outcome::Ok, 4097));
 w_harness!(c08_add_new, add_appointment_step(Some(0), false, Pre::Fresh, true, false, true, Outcome::Ok, 3));
 w_harness!(c08_add_update, add_appointment_step(Some(0), false, Pre::Stored, true, false, true, Outcome::Ok, 3));
+w_harness!(c08_add_update_same_blob, add_appointment_step(Some(0), false, Pre::StoredSame, true, false, true, Outcome::Ok, 3));
 wc_harness!(c01_add_late_accepted, add_appointment_step(Some(0), false, Pre::Fresh, true, true, true, Outcome::Ok, 3));
 wc_harness!(c01_add_late_garbled, add_appointment_step(Some(0), false, Pre::Fresh, true, true, false, Outcome::Ok, 3));
 wc_harness!(c01_add_late_rejected, add_appointment_step(Some(0), false, Pre::Fresh, true, true, true, Outcome::Rpc(-26), 3));
